@@ -36,6 +36,8 @@ class Builder:
         self.ifaces = {}
         self.owners = {}           # (index, side) -> the wl_display / wl_client that owns the connection (one per connection, as in libwayland)
         self.freed_owner_addrs = []   # addresses of owners whose connection was destroyed: malloc hands them out again
+        self.arg_objs = {}            # (index, object id) -> (interface, the proxy / resource's wl_object): one address for an object's whole life
+        self.freed_obj_addrs = []     # ... and the addresses of freed ones, which malloc hands to later objects (of any id)
 
     def iface(self, name):
         G = self.G
@@ -48,6 +50,31 @@ class Builder:
         G = self.G
         return G.Obj(G.wl_object, {'interface': G.ptr(self.iface(iface)) if iface is not None else G.null(G.wl_interface.pointer()),
                                    'implementation': G.null(G.void.pointer()), 'id': G.Value(G.uint32, oid)}, parent=parent)
+
+    def arg_object(self, conn, iface, oid):
+        """the wl_object behind an object argument: the same address every time the object is mentioned; an object created
+        later may get the address of one that was freed before"""
+        key = (conn, oid)
+        cur = self.arg_objs.get(key)
+        if cur is not None and cur[0] == iface:
+            return cur[1]
+        if cur is not None:
+            self.freed_obj_addrs.append(cur[1].addr)
+        o = self.wl_object(iface, oid)
+        if self.freed_obj_addrs:
+            o.addr = self.freed_obj_addrs.pop(0)
+        self.arg_objs[key] = (iface, o)
+        return o
+
+    def created(self, conn, oid):
+        """a new id names `oid`: whatever object had that id before has been freed"""
+        cur = self.arg_objs.pop((conn, oid), None)
+        if cur is not None:
+            self.freed_obj_addrs.append(cur[1].addr)
+
+    def forget_objects(self, index):
+        for key in [k for k in self.arg_objs if k[0] == index]:
+            self.freed_obj_addrs.append(self.arg_objs.pop(key)[1].addr)
 
     def connection(self, index):
         G = self.G
@@ -64,6 +91,7 @@ class Builder:
             new.addr = old.addr
         self.connections[index] = new
         self.forget_owner(index)      # its wl_display / wl_client went with it
+        self.forget_objects(index)
         return new
 
     def new_connection_elsewhere(self, index):
@@ -72,6 +100,7 @@ class Builder:
         G = self.G
         self.connections[index] = G.Obj(G.wl_connection, {'fd': G.Value(G.int_t, 5 + index), 'want_flush': G.Value(G.int_t, 0)})
         self.forget_owner(index)
+        self.forget_objects(index)
         return self.connections[index]
 
     def owner(self, index, side):
@@ -111,11 +140,12 @@ class Builder:
             elif c == 'f': d['f'] = G.Value(G.fixed, a[1])
             elif c == 's': d['s'] = G.cstr(a[1])
             elif c == 'o':
-                d['o'] = G.null(G.wl_object.pointer()) if a[2] is None else G.ptr(self.wl_object(a[1], a[2]))
+                d['o'] = G.null(G.wl_object.pointer()) if a[2] is None else G.ptr(self.arg_object(spec['conn'], a[1], a[2]))
             elif c == 'n':
+                self.created(spec['conn'], a[1])
                 if new_id_as_object:
                     ti = spec['types'][len(slots)]
-                    d['o'] = G.ptr(self.wl_object(ti, a[1]))
+                    d['o'] = G.ptr(self.arg_object(spec['conn'], ti, a[1]))
                     d['n'] = G.Value(G.uint32, POISON)
                 else:
                     d['n'] = G.Value(G.uint32, a[1])
